@@ -24,6 +24,7 @@ namespace yakushima {
                                       std::string_view key_view);
 
 status storage::create_storage(std::string_view storage_name) { // NOLINT
+    std::lock_guard<std::mutex> ddl_guard{ddl_mutex_};
     // prepare create storage
     tree_instance new_instance;
     border_node* new_border = new border_node(); // NOLINT
@@ -49,6 +50,8 @@ status storage::create_storage(std::string_view storage_name) { // NOLINT
 }
 
 status storage::delete_storage(std::string_view storage_name) { // NOLINT
+    // the lookup and the remove below must see the same entry
+    std::lock_guard<std::mutex> ddl_guard{ddl_mutex_};
     Token token{};
     while (status::OK != enter(token)) { _mm_pause(); }
     // search storage
